@@ -432,6 +432,7 @@ class Recorder:
         self.layouts = []        # calls of table_layout
         self.preferred = []      # first computation of table_and_columns_preferred_widths per table
         self.cell_widths = []    # table_cell_min_max_content_width of every cell, at that moment
+        self.group_orders = []   # calls of build.wrap_table: row groups in, table.children out
         self.current = None      # (html, info) of the document being rendered
 
     @contextlib.contextmanager
@@ -608,11 +609,28 @@ class Recorder:
                 'violation': border_violation(table, grid_width, grid_height, result)})
             return result
 
+        orig_wrap = build.wrap_table
+
+        def wrap_table(box, children):
+            children = list(children)
+            groups_in = [c for c in children if isinstance(c, (boxes.TableRowGroupBox, boxes.TableRowBox))]
+            wrapper = orig_wrap(box, children)
+            if groups_in and all(isinstance(c, boxes.TableRowGroupBox) for c in groups_in):
+                kinds = ['header' if g.style['display'] == ('table-header-group',) else
+                         'footer' if g.style['display'] == ('table-footer-group',) else 'body' for g in groups_in]
+                table = wrapper.get_wrapped_table()
+                index = {id(g): i for i, g in enumerate(groups_in)}
+                out = [(index.get(id(g)), bool(g.is_header), bool(g.is_footer)) for g in table.children]
+                rec.group_orders.append({'doc': rec.current, 'kinds': kinds, 'out': out})
+            return wrapper
+
+        build.wrap_table = wrap_table
         table_mod.fixed_table_layout, table_mod.auto_table_layout = fixed, auto
         table_mod.distribute_excess_width, build.collapse_table_borders = excess, collapse
         try:
             yield self
         finally:
+            build.wrap_table = orig_wrap
             preferred.table_and_columns_preferred_widths = orig_pref
             table_mod.table_and_columns_preferred_widths = orig_pref
             block_mod.table_layout = orig_layout
@@ -1229,6 +1247,11 @@ def rows_violation(table, continued_row=False):
                             return (f'continued cell {cell_texts(cell)!r}: its content starts at '
                                     f'y={cell.content_box_y()}, inside the bottom border of the repeated header '
                                     f'(which reaches y={below})')
+                for cell in row.children:
+                    bottom = cell.position_y + cell.border_height()
+                    if cell.rowspan == 1 and abs(bottom - (row.position_y + row.height)) > tol:
+                        return (f'continued cell {cell_texts(cell)!r} ends at y={bottom}, its row at '
+                                f'y={row.position_y + row.height}')
                 continue
             for cell in row.children:
                 if abs(cell.position_y - row.position_y) > tol:
@@ -1525,7 +1548,9 @@ def split_border_cases(records):
         broken_in_row = _skip_depth(resume_at) > 2
         _, horizontal = table.collapsed_border_grid
         fragment = r['result'][0]
-        line = sx.line('splitborders', skip_wire, [len(g.children) for g in groups], has_header, has_footer,
+        header_shown = bool(fragment.children) and fragment.children[0].is_header
+        line = sx.line('splitborders', skip_wire, [len(g.children) for g in groups], has_header, header_shown,
+                       has_footer,
                        broken_in_row, [[num(e[1][1]) for e in row] for row in horizontal], num(before))
         top, bottom = r['skip_flags']
         out = (f'{fragment.skipped_rows} {str(bool(skip_wire != "none" and len(skip_wire) == 3 and skip_wire[2])).lower()} '
@@ -1545,8 +1570,8 @@ def split_cell_y_cases(table, continued, header_declared=False):
     header = table.children[0] if table.children and table.children[0].is_header else None
     if header is None and header_declared:
         # the declared header was dropped (too tall): the code still shifts the continued cells by the
-        # borders of that header, which this fragment does not show (same root as the known finding
-        # collapsed-dropped-header-shifts-borders: `has_header` means declared, not rendered)
+        # borders of that header, which this fragment does not show (known finding
+        # collapsed-dropped-header-top-border: `has_header` means declared, not rendered)
         return []
     bottoms = []
     if header is not None and header.children and header.children[-1].children:
@@ -1557,11 +1582,100 @@ def split_cell_y_cases(table, continued, header_declared=False):
         if not g.children:
             return []
         row = g.children[0]
-        return [(sx.line('splitcelly', num(row.position_y), collapse, header is not None, bool(continued), bottoms),
-                 sx.atom(num(c.position_y)),
+        return [(sx.line('splitcellbox', num(row.position_y), num(row.height), collapse, header is not None,
+                         bool(continued), bottoms),
+                 f'{sx.atom(num(c.position_y))} {sx.atom(num(c.border_height()))}',
                  ['continued' if continued else 'fresh', 'header' if header is not None else 'no-header',
-                  'collapse' if collapse else 'separate']) for c in row.children]
+                  'collapse' if collapse else 'separate']) for c in row.children if c.rowspan == 1]
     return []
+
+
+# ---------------------------------------------------------------- header / footer groups (wrap_table)
+
+def group_order_out(out):
+    """[(input index, is_header, is_footer)] of table.children -> the canonical string of `grouporder`;
+    a header that is not first / a footer that is not last / a foreign group gives `bad-order …`."""
+    header = next((i for i, h, f in out if h), None)
+    footer = next((i for i, h, f in out if f), None)
+    bodies = [i for i, h, f in out if not h and not f]
+    ok = (all(i is not None for i, _, _ in out) and sum(1 for _, h, _ in out if h) <= 1 and
+          sum(1 for _, _, f in out if f) <= 1 and (header is None or out[0][1]) and (footer is None or out[-1][2]))
+    text = (f'{"none" if header is None else header} ({" ".join(map(str, bodies))}) '
+            f'{"none" if footer is None else footer}')
+    return text if ok else 'bad-order ' + text
+
+
+GROUP_TAGS = {'header': 'thead', 'footer': 'tfoot', 'body': 'tbody'}
+
+
+def g_groups_doc(rng):
+    """Tables with 1..6 row groups of any kind in any order — several thead / tfoot included, the kind
+    given by the element or by `display` on another element — 1..3 rows each, on a tall page or on
+    small pages (header and footer repeated).  info['kinds'] / info['group_rows'] describe the source."""
+    fs = 10
+    n_cols = rng.choice([1, 2])
+    paged = rng.random() < 0.4
+    page_h = rng.choice([50, 60, 80, 120]) if paged else 4000
+    collapse = rng.random() < 0.3
+    kinds, group_rows, parts = [], [], []
+    for gi in range(rng.choice([1, 2, 3, 3, 4, 5, 6])):
+        kind = rng.choice(['body', 'body', 'header', 'footer', 'footer'])
+        n_rows = rng.choice([1, 1, 2, 3])
+        rows = ''.join('<tr>' + ''.join(f'<td>g{gi}r{ri}</td>' if x == 0 else f'<td>{rng.choice(WORDS)}</td>'
+                                        for x in range(n_cols)) + '</tr>' for ri in range(n_rows))
+        if rng.random() < 0.3:
+            other = rng.choice([t for t in GROUP_TAGS.values() if t != GROUP_TAGS[kind]])
+            display = {'header': 'table-header-group', 'footer': 'table-footer-group', 'body': 'table-row-group'}[kind]
+            parts.append(f'<{other} style="display:{display}">{rows}</{other}>')
+        else:
+            parts.append(f'<{GROUP_TAGS[kind]}>{rows}</{GROUP_TAGS[kind]}>')
+        kinds.append(kind)
+        group_rows.append(n_rows)
+    tstyle = f'border-collapse:{"collapse" if collapse else "separate"};border-spacing:{rng.choice([0, 2])}px'
+    css = (f'@page{{size:200px {page_h}px;margin:0}}body{{margin:0;font:{fs}px weasyprint;line-height:{fs}px}}'
+           f'td{{padding:0;border:{rng.choice([0, 1])}px solid gray}}')
+    html = f'<style>{css}</style><table style="{tstyle}">{"".join(parts)}</table>'
+    first_h = kinds.index('header') if 'header' in kinds else None
+    first_f = kinds.index('footer') if 'footer' in kinds else None
+    n_body = sum(n for i, n in enumerate(group_rows) if i not in (first_h, first_f))
+    info = {'flavour': 'groups', 'kinds': kinds, 'group_rows': group_rows, 'n_cols': n_cols, 'n_body': n_body,
+            'body_groups': [n for i, n in enumerate(group_rows) if i not in (first_h, first_f)],
+            'labels': [f'g{gi}r{ri}' for gi, n in enumerate(group_rows) if gi not in (first_h, first_f)
+                       for ri in range(n)],
+            'n_head': group_rows[first_h] if first_h is not None else 0,
+            'n_foot': group_rows[first_f] if first_f is not None else 0, 'layout': 'auto', 'collapse': collapse,
+            'rtl': False, 'caption': None, 'page_h': page_h}
+    return html, info
+
+
+def groups_violation(document, info):
+    """CSS 2.1 17.2 / "each body row appears once, header and footer groups are repeated": only the
+    first thead / tfoot is the header / footer; the rows of every other group are shown exactly once
+    over the fragments, in source order; a repeated header / footer shows the rows of the first thead /
+    tfoot."""
+    import collections
+    kinds, group_rows = info['kinds'], info['group_rows']
+    first_h = kinds.index('header') if 'header' in kinds else None
+    first_f = kinds.index('footer') if 'footer' in kinds else None
+    want_body = [f'g{gi}r{ri}' for gi, n in enumerate(group_rows) if gi not in (first_h, first_f) for ri in range(n)]
+    shown = []
+    for _, _, t in table_fragments(document):
+        for g in t.children:
+            labels = [cell_texts(r.children[0]) for r in g.children if r.children]
+            if g.is_header or g.is_footer:
+                first, name = (first_h, 'header') if g.is_header else (first_f, 'footer')
+                want = [f'g{first}r{ri}' for ri in range(group_rows[first])] if first is not None else []
+                if labels != want:
+                    return (f'the repeated {name} shows the rows {labels}, the first '
+                            f'table-{name}-group of the table has the rows {want}')
+            else:
+                shown.extend(labels)
+    if shown != want_body:
+        missing = collections.Counter(want_body) - collections.Counter(shown)
+        extra = collections.Counter(shown) - collections.Counter(want_body)
+        return (f'rows of the groups that are not the header / footer: shown {shown}, expected each of {want_body} '
+                f'once in order (missing {sorted(missing)}, extra {sorted(extra)})')
+    return None
 
 
 # ---------------------------------------------------------------- rows split by a page break (cell skip stacks)
@@ -1641,14 +1755,16 @@ def cell_skip_cases(records):
                     results, ok = [], True
                     for ci in range(len(calls)):
                         call = calls[ci][0]
-                        c = _chain(call['resume']) if call['placed'] else [0]
-                        ok = ok and c != 'complex'
-                        results.append(_chain_wire(c))
+                        given, got = _chain(call['skip']), _chain(call['resume'])
+                        ok = ok and 'complex' not in (given, got)
+                        results.append([call['placed'], _chain_wire(given), _chain_wire(got)])
                     out = {k: _chain(v) for k, v in row_resume.items()}
                     if ok and 'complex' not in out.values():
-                        cases.append((sx.line('rowresume', results),
+                        unplaced = any(not r[0] for r in results)
+                        cases.append((sx.line('rowresumeraw', results),
                                       '(' + ' '.join(f'({k} ({" ".join(map(str, c))}))' for k, c in out.items()) + ')',
-                                      ['row-resume', f'pending{len(out)}']))
+                                      ['row-resume', f'pending{len(out)}'] +
+                                      (['cell-placed-nothing'] if unplaced else [])))
     return cases
 
 
@@ -1779,14 +1895,36 @@ def painted_segments(table):
     return calls, None
 
 
+def pipeline_border_lines(document):
+    """The lines `draw_collapsed_borders` paints while the document is really written to PDF
+    (`document.write_pdf()`, real streams): `weasyprint.draw.draw_line` — used by that function only —
+    records and then calls the original.  -> [(style, width, x1, y1, x2, y2)] in painting order."""
+    import weasyprint.draw as draw
+    calls = []
+    orig = draw.draw_line
+
+    def line(stream, x1, y1, x2, y2, thickness, style, color, offset=0):
+        calls.append((style, thickness, x1, y1, x2, y2))
+        return orig(stream, x1, y1, x2, y2, thickness, style, color, offset)
+
+    draw.draw_line = line
+    try:
+        document.write_pdf()
+    finally:
+        draw.draw_line = orig
+    return calls
+
+
 def fragment_rows_header_footer(table):
     header_rows = len(table.children[0].children) if table.children and table.children[0].is_header else 0
     footer_rows = len(table.children[-1].children) if table.children and table.children[-1].is_footer else 0
     return header_rows, footer_rows
 
 
-def draw_borders_case(table):
-    """(protocol args, implementation output, tags) of `drawborders` for one collapsed fragment."""
+def draw_borders_case(table, pipeline=None):
+    """(protocol args, implementation output, tags) of `drawborders` for one collapsed fragment.
+    `pipeline`: what is left of `pipeline_border_lines(document)`: the fragment's lines are taken from
+    its head and must be the ones the direct call paints."""
     from vlib import sx
     colors = DrawColors()
     rows = [r for g in table.children for r in g.children]
@@ -1799,8 +1937,16 @@ def draw_borders_case(table):
             rats(table.column_positions), header_rows, footer_rows, int(table.skipped_rows or 0),
             bool(table.skip_cell_border_top), bool(table.skip_cell_border_bottom), grid(vertical), grid(horizontal)]
     calls, err = painted_segments(table)
+    if pipeline is not None and not err:
+        seen = pipeline[:len(calls)]
+        del pipeline[:len(calls)]
+        direct = [(style, w, x1, y1, x2, y2) for style, w, _, _, x1, y1, x2, y2 in calls]
+        if seen != direct:
+            k = next((i for i, (a, b) in enumerate(zip(seen, direct)) if a != b), min(len(seen), len(direct)))
+            err = (f'pipeline-differs: writing the PDF painted {len(seen)} of the {len(direct)} lines of this '
+                   f'fragment, first difference at line {k}')
     if err:
-        out = f'err:{err}'
+        out = err if err.startswith('pipeline') else f'err:{err}'
     else:
         out = 'ok (' + ' '.join(
             f'({style} {sx.atom(num(w))} {colors(color)} {side} {sx.atom(num(x1))} {sx.atom(num(y1))} '
@@ -1817,16 +1963,14 @@ def painted_violation(table, tol=1e-6, known=True, header_declared=False):
     edges of body cells that do not touch the header, the footer or the fragment's ends, the widest line
     painted is twice the used border width the cell was laid out with (border_halves, on what is
     actually drawn).  Fragments with rows / columns thinner than the borders are not judged.
-    `known=True`: the line hit by the known finding collapsed-footer-line-off-by-one is not judged, nor a
-    first fragment whose declared header was dropped (known finding
-    collapsed-dropped-header-shifts-borders: `header_declared` and no header row group shown)."""
+    `known=True`: not judged are the clipped grid of an rtl fixed-layout table (known finding
+    collapsed-rtl-clipped-grid) and the top border reserved on a fragment whose declared header was
+    dropped (known finding collapsed-dropped-header-top-border: `header_declared`, no header shown)."""
     calls, err = painted_segments(table)
     if err:
         return f'draw_collapsed_borders raised {err}'
     rows = [(g, r) for g in table.children for r in g.children]
     if not rows or not table.column_widths:
-        return None
-    if known and header_declared and not table.children[0].is_header and not table.skipped_rows:
         return None
     row_pos = [r.position_y for _, r in rows] + [rows[-1][1].position_y + rows[-1][1].height]
     col_pos = list(table.column_positions) + [table.column_positions[-1] + table.column_widths[-1]]
@@ -1868,15 +2012,7 @@ def painted_violation(table, tol=1e-6, known=True, header_declared=False):
         # wrong end of the grid
         return None
     body = [i for i, (g, _) in enumerate(rows) if not (g.is_header or g.is_footer)]
-    # known finding collapsed-footer-line-off-by-one: on a fragment that repeats the footer but is not
-    # the last one, row_number() takes the line between the last two body rows for a footer line
     _, footer_rows = fragment_rows_header_footer(table)
-    known_line = None
-    if footer_rows and len(vertical_grid) != len(rows):
-        known_line = len(rows) - footer_rows - 1
-    if known and known_line is not None:
-        for x in range(n):
-            hor.pop((known_line, x), None)
     y = 0
     for g in table.children:
         for ri, row in enumerate(g.children):
@@ -1915,8 +2051,8 @@ def painted_violation(table, tol=1e-6, known=True, header_declared=False):
     # the first row lies half the widest border of the top line below the table's border-box top
     top = [hor.get((0, x)) for x in range(n)]
     header_dropped = header_declared and not table.children[0].is_header
-    # (a declared header that was dropped leaves the header's top border reserved: same root as the
-    # known finding collapsed-dropped-header-shifts-borders, `has_header` means declared, not rendered)
+    # (a declared header that was dropped leaves the header's top border reserved: known finding
+    # collapsed-dropped-header-top-border, `has_header` means declared, not rendered)
     if not table.skip_cell_border_top and all(w is not None for w in top) and not (known and header_dropped):
         gap = row_pos[0] - table.border_box_y() - table.padding_top
         if abs(gap - max(top) / 2) > tol:
